@@ -4,6 +4,7 @@ pub mod algs;
 pub mod e1;
 pub mod e2;
 pub mod enc;
+pub mod gbat;
 pub mod guard;
 pub mod refmodel;
 pub mod report;
